@@ -2,7 +2,7 @@
    The driver writes cases_<k>.v files that apply [run_cases] to a literal case list. *)
 From HbsLms Require Import Base.Bytes Model.Consts Model.Winternitz Model.Counter Model.KeyBlob.
 From HbsLms Require Import Model.Lmots Model.Lms Model.Derive Model.Codec Model.Hss Model.SignCore.
-From HbsLms Require Import Gen.Generated Exec.Sha256.
+From HbsLms Require Import Gen.Generated Exec.Sha256 Spec.Rfc8554Ots Spec.Rfc8554.
 
 Local Open Scope N_scope.
 
@@ -33,6 +33,7 @@ Inductive case :=
 | CSign (n : nat) (blob msg : bytes) (accept : bool) (sig : res bytes) (calls : list (bytes * bool))
 | CVerify (n : nat) (msg sig pk : bytes) (verdict : res unit)
 | CLifetime (n : nat) (blob : bytes) (life : res N)
+| CHash (n : nat) (data out : bytes)
 (* SigningKey::from_bytes(blob).try_sign(msg): signature and the key bytes afterwards *)
 | CTrySign (n : nat) (blob msg : bytes) (sig after : res bytes)
 | COtsPub (n : nat) (I : bytes) (q : N) (seed : bytes) (ty : N) (out : res bytes)
@@ -125,6 +126,7 @@ Definition model_of (c : case) : shown :=
     SSign (hexr r) (map (fun c => (hex (fst c), snd c)) cs)
   | CVerify n msg sig pk _ => SVerdict (hss_verify K n (Hn n) msg sig pk)
   | CLifetime n blob _ => SNum (get_lifetime K n blob)
+  | CHash n data _ => SBytes (Ok (hex (Hn n data)))
   | CTrySign n blob msg _ _ =>
     let r := model_try_sign n blob msg in SPair (hexr (fst r)) (hexr (snd r))
   | COtsPub n tid q seed ty _ => SBytes (hexr (model_ots_pub n tid q seed ty))
@@ -148,6 +150,7 @@ Definition run_case (c : case) : bool :=
     res_eqb bytes_eqb r sig && calls_eqb cs calls
   | CVerify n msg sig pk v => res_eqb (fun _ _ => true) (hss_verify K n (Hn n) msg sig pk) v
   | CLifetime n blob l => res_eqb N.eqb (get_lifetime K n blob) l
+  | CHash n data out => bytes_eqb (Hn n data) out
   | CTrySign n blob msg sig after =>
     let r := model_try_sign n blob msg in
     res_eqb bytes_eqb (fst r) sig && res_eqb bytes_eqb (snd r) after
@@ -162,3 +165,23 @@ Definition run_cases (cs : list (N * case)) : list N :=
 Definition show_cases (ids : list N) (cs : list (N * case)) : list (N * shown) :=
   map (fun ic => (fst ic, model_of (snd ic)))
       (filter (fun ic => existsb (N.eqb (fst ic)) ids) cs).
+
+(* ---------------------------------------------------------------- RFC 8554 as the judge (C02, C07)
+
+   The independent transcription of RFC 8554 section 6.3 is evaluated on the same (message,
+   signature, public key) triples; its verdict must equal the implementation's.  The LMS table is
+   the RFC's Table 2 plus the 4-leaf test height (typecode 1) that the verification hook enables. *)
+Definition ext_lms_tbl (code : N) : option N :=
+  match code with 1 => Some 2 | _ => rfc_lms_tbl code end.
+
+Definition rfc_verdict (n : nat) (msg sig pk : bytes) : bool :=
+  hss_verify_rfc n (Hn n) (rfc_ots_tbl n) ext_lms_tbl (N.of_nat (c_max_levels K)) msg sig pk.
+
+Definition rfc_case (c : case) : bool :=
+  match c with
+  | CVerify n msg sig pk v => Bool.eqb (rfc_verdict n msg sig pk) (match v with Ok _ => true | _ => false end)
+  | _ => true
+  end.
+
+Definition run_rfc (cs : list (N * case)) : list N :=
+  map fst (filter (fun ic => negb (rfc_case (snd ic))) cs).
